@@ -72,7 +72,9 @@ pub struct StubScript {
 }
 
 struct Entry {
-    th: Option<Arc<TransportHandle>>,
+    /// weak: the hub is owned by every TransportHandle (`verif_net`), a strong reference back would be a cycle that
+    /// keeps each case's runtime (and its file descriptors) alive for ever
+    th: Option<std::sync::Weak<TransportHandle>>,
     addr: SocketAddr,
     mode: Mode,
     stub: Option<StubScript>,
@@ -147,7 +149,7 @@ impl Hub {
     pub fn register(&self, id: &str, addr: SocketAddr, th: Option<Arc<TransportHandle>>, stub: Option<StubScript>) {
         let mut g = self.inner.lock().unwrap();
         g.by_addr.insert(addr, id.to_string());
-        g.nodes.insert(id.to_string(), Entry { th, addr, mode: Mode::Up, stub });
+        g.nodes.insert(id.to_string(), Entry { th: th.as_ref().map(Arc::downgrade), addr, mode: Mode::Up, stub });
     }
     pub fn set_mode(&self, id: &str, mode: Mode) {
         if let Some(e) = self.inner.lock().unwrap().nodes.get_mut(id) {
@@ -189,7 +191,7 @@ impl Hub {
 
     /// Deliver a frame into a real node's receive loop as coming from `from` (authenticated id).
     pub async fn inject(&self, from: &str, to: &str, frame: Vec<u8>) -> bool {
-        let th = { self.inner.lock().unwrap().nodes.get(to).and_then(|e| e.th.clone()) };
+        let th = { self.inner.lock().unwrap().nodes.get(to).and_then(|e| e.th.as_ref().and_then(|w| w.upgrade())) };
         let info = wire::decode_wire_message(&frame).and_then(|(p, d, _, _)| dht_info(&p, &d));
         match th {
             Some(th) => {
@@ -250,7 +252,7 @@ impl MemNet for Hub {
             let g = self.inner.lock().unwrap();
             let to = g.by_addr.get(&addr).cloned();
             let e = to.as_ref().and_then(|t| g.nodes.get(t));
-            (to.clone(), e.and_then(|e| e.th.clone()), g.nodes.get(from).map(|e| e.addr), e.map(|e| e.mode))
+            (to.clone(), e.and_then(|e| e.th.as_ref().and_then(|w| w.upgrade())), g.nodes.get(from).map(|e| e.addr), e.map(|e| e.mode))
         };
         let ok = to.is_some() && mode != Some(Mode::Dead) && to.as_deref() != Some(from);
         self.push(Ev::Dial { t: self.t(), from: from.into(), addr, to: if ok { to.clone() } else { None } });
@@ -275,7 +277,7 @@ impl MemNet for Hub {
             let jitter = if g.jitter_max_ms == 0 { 0 } else { blake3::hash(&[&g.jitter_seed.to_le_bytes()[..], &n.to_le_bytes()[..]].concat()).as_bytes()[0] as u64 * g.jitter_max_ms / 255 };
             match g.nodes.get(to) {
                 None => (None, None, None, g.manual, jitter),
-                Some(e) => (Some(e.mode), e.th.clone(), e.stub.clone(), g.manual, jitter),
+                Some(e) => (Some(e.mode), e.th.as_ref().and_then(|w| w.upgrade()), e.stub.clone(), g.manual, jitter),
             }
         };
         match mode {
@@ -314,7 +316,7 @@ impl MemNet for Hub {
         } else if let Some(script) = stub {
             // a stub: compute its reply and hand it to the sender's receive loop
             if let Some(reply) = Hub::stub_reply(to, &script, &frame) {
-                let back = { self.inner.lock().unwrap().nodes.get(from).and_then(|e| e.th.clone()) };
+                let back = { self.inner.lock().unwrap().nodes.get(from).and_then(|e| e.th.as_ref().and_then(|w| w.upgrade())) };
                 if let Some(back) = back {
                     let stub_id = to.to_string();
                     let from2 = from.to_string();
